@@ -83,6 +83,7 @@ func init() {
 			{"R34.1", "deletion only when no replay is needed", ruleDeleteGuarded},
 			{"R34.2", "cleanup loop guards (header-only removal, own file skipped, move-aside policy)", ruleCleanupGuards},
 			{"R34.4", "replay brackets its work with status records", ruleReplayBrackets},
+			{"R34.8", "ReplayError is recognised through error wrapping", ruleReplayErrorUnwrapped},
 			{"R2.1", "replayed TG is checkpointed", ruleReplayCheckpointed},
 			{"R35.4", "checkpoint records (COMMITCOMPLETE only) prune replay by id order", ruleCheckpointPrunesReplay},
 			{"R34.7", "no file mutation outside the owning gates", ruleNoForeignWriter("R34.7")},
@@ -124,6 +125,7 @@ func init() {
 			{"R3.1", "indirect data is append-only until the index moves; index after data", ruleIndirectAppendOnly},
 			{"R3.3", "replay failures are ReplayErrors", ruleReplayErrorClass},
 			{"R3.4", "startup panic sites are the frozen table", ruleStartupPanics},
+			{"R34.8", "tolerated replay errors are recognised through error wrapping", ruleReplayErrorUnwrapped},
 			{"R6.4", "no explicit panic below Replay", ruleNoPanicUnderReplay},
 			{"R6.1", "lengths from the log are bounded on both sides", ruleUntrustedLengths},
 		},
